@@ -92,6 +92,8 @@ def build_harness(variant, name):
         "h_conv": ["ref_conv.c", "ref_g711.c", "ref_adpcm.c", "h_c20.c"],
         "h_rdwr": ["ref_g711.c"],
         "h_meta": ["h_chunks.c"],
+        "h_hostile": ["hostile_core.c"],
+        "h_fault": ["hostile_core.c"],
     }.get(name, [])
     if name == "h_cmd":
         # the command list is taken from the tree's own public header every time
@@ -100,6 +102,20 @@ def build_harness(variant, name):
         cmds = re.findall(r"(SFC_[A-Z0-9_]+)\s*=\s*(0x[0-9A-Fa-f]+)", txt)
         gen = os.path.join(hd, "sfc_list.h")
         body = "static const struct { const char *name ; int id ; } sfc_list [] = {\n" + "".join('\t{ "%s", %s },\n' % c for c in cmds) + "\t{ NULL, 0 } } ;\n"
+        if not os.path.exists(gen) or open(gen).read() != body:
+            open(gen, "w").write(body)
+        cflags += ["-I", hd]
+        headers.append(gen)
+    if name == "h_hostile":
+        # the containers and encodings the public header names (SF_FORMAT_DWVW_N etc. are readable but not in the writable lists)
+        import re
+        txt = open(os.path.join(REPO, "include", "sndfile.h")).read()
+        vals = [(n, int(v, 16)) for n, v in re.findall(r"(SF_FORMAT_[A-Z0-9_]+)\s*=\s*(0x[0-9A-Fa-f]+)", txt)]
+        majors = [(n, v) for n, v in vals if 0x10000 <= v < 0x0FFF0000 and n not in ("SF_FORMAT_TYPEMASK",)]
+        subs = [(n, v) for n, v in vals if 0 < v < 0x10000 and n not in ("SF_FORMAT_SUBMASK",)]
+        gen = os.path.join(hd, "sff_list.h")
+        body = ("static const int sff_majors [] = { " + ", ".join("0x%x /* %s */" % (v, n) for n, v in majors) + ", 0 } ;\n" +
+                "static const int sff_subtypes [] = { " + ", ".join("0x%x /* %s */" % (v, n) for n, v in subs) + ", 0 } ;\n")
         if not os.path.exists(gen) or open(gen).read() != body:
             open(gen, "w").write(body)
         cflags += ["-I", hd]
